@@ -504,6 +504,10 @@ func (gen *Generator) GenerateLet(name string, args []Sexp) error {
 	gen.AddInstruction(AddScopeInstr{Name: "runtime " + name})
 	gen.scopes++
 
+	// the binding expressions are never in tail position (only the last
+	// form of the body is): a self call there must be a real call.
+	oldtail := gen.Tail
+	gen.Tail = false
 	if name == "letseq" {
 		for i, rs := range rstatements {
 			err := gen.Generate(rs)
@@ -523,6 +527,7 @@ func (gen *Generator) GenerateLet(name string, args []Sexp) error {
 			gen.AddInstruction(PopStackPutEnvInstr{lstatements[i]})
 		}
 	}
+	gen.Tail = oldtail
 	err := gen.GenerateBegin(args[1:])
 	if err != nil {
 		return err
